@@ -6,8 +6,10 @@ namespace SymEngine
 
 inline hash_t Basic::hash() const
 {
+    SYMENGINE_VERIF_SIM_POINT(3, this)
     if (hash_ == 0)
         hash_ = __hash__();
+    SYMENGINE_VERIF_SIM_POINT(4, this)
     return hash_;
 }
 
